@@ -370,6 +370,8 @@ def run(program):
         res["distinct"] = sorted(distinct)[:300]
         for op in program["ops"]:
             probe("op:" + op["op"])
+            if op["op"] == "prior_sample" and op.get("generate_linear"):
+                probe("op:prior_sample+linear")
     except Exception:  # noqa: BLE001
         res["harness_error"] = traceback.format_exc()[-3000:]
     finally:
